@@ -410,7 +410,8 @@ func (j *judge) reEq(where string, resp, re interface{}) {
 // scalarCounts: how many non-null values of each custom scalar type the response carries
 // (the user's unmarshaler / marshaler for that scalar must run for each of them).
 func (j *judge) scalarCounts(obj *OObj, sels ast.SelectionSet, concrete string, out map[string]int, depth int) {
-	if depth > 14 {
+	if depth > 40 {
+		out["\x00truncated"]++ // the count is a lower bound only
 		return
 	}
 	g := j.respGenFor()
@@ -419,7 +420,11 @@ func (j *judge) scalarCounts(obj *OObj, sels ast.SelectionSet, concrete string, 
 	g.collect(sels, concrete, &order, into, map[string]bool{})
 	var walk func(v interface{}, t *ast.Type, sub ast.SelectionSet, d int)
 	walk = func(v interface{}, t *ast.Type, sub ast.SelectionSet, d int) {
-		if v == nil || d > 14 {
+		if v == nil {
+			return
+		}
+		if d > 40 {
+			out["\x00truncated"]++
 			return
 		}
 		if arr, ok := v.([]interface{}); ok {
